@@ -10,6 +10,7 @@ import argparse, collections, glob, json, os, random, sys, time
 sys.path.insert(0, os.path.dirname(os.path.abspath(__file__)))
 from enrlib import *
 import gens
+import coqcross
 
 REC_FIELDS = ["seq", "nid", "sig", "pairs", "pk", "pku", "nidpk", "verify", "size", "enc", "text", "disp", "json", "id", "ip4", "ip6",
               "tcp4", "tcp6", "udp4", "udp6", "s_udp4", "s_udp6", "s_tcp4", "s_tcp6", "r_udp", "r_tcp", "client", "acc", "glue", "alt"]
@@ -30,6 +31,7 @@ class Ctx:
         self.validated = 0
         self.hyp_checked = collections.Counter()
         self.quick = tier == "quick"
+        self.cross = {"decode_and_text_cases": 0, "history_steps": 0, "seconds": 0.0}
 
     def scale(self, q, t):
         return q if self.quick else t
@@ -215,6 +217,29 @@ def decode_inputs(ctx, kt, n_valid, with_tampers, with_struct, n_unstructured, n
     return recs, inputs, labels
 
 
+def cross_decode(ctx, kt, inputs, texts=()):
+    """extraction cross-check on a sample of this run's own toy-key inputs (see coqcross.py)"""
+    if kt != "toy":
+        return
+    n = ctx.scale(24, 250)
+    ins = list(inputs)
+    ctx.rng.shuffle(ins)
+    txt = list(texts)[:ctx.scale(6, 60)]
+    k, dt = coqcross.cross_check(ins[:n], txt, ctx.pid.lower())
+    ctx.cross["decode_and_text_cases"] += k
+    ctx.cross["seconds"] += dt
+
+
+def cross_hist(ctx, kt, cases, res):
+    if kt != "toy":
+        return
+    pairs = [(c, ml) for c, (il, ml) in zip(cases, res) if not any(l.startswith(("rebuild", "save", "use", "pair", "recode", "show")) for l in c)]
+    ctx.rng.shuffle(pairs)
+    k, dt = coqcross.cross_check_histories(pairs[:ctx.scale(8, 80)], ctx.pid.lower() + "h")
+    ctx.cross["history_steps"] += k
+    ctx.cross["seconds"] += dt
+
+
 def check_C01(ctx):
     fields = ["rest", "seq", "pairs", "sig", "pk", "verify", "vfy"]
 
@@ -243,6 +268,7 @@ def check_C01(ctx):
             cases.append(["decode " + hx(r["bytes"]), "decode " + hx(tw), "decode " + hx(r["bytes"]), "parse " + hx(b"enr:" + gens.b64(tw))])
             labs.append("genuine_then_content_twin")
         compare_cases(ctx, kt, cases, labs, lambda c, h: fields, "c01", mon, nontrivial=lambda case, il: True)
+        cross_decode(ctx, kt, inputs, [b"enr:" + gens.b64(b) for b in inputs[:12]])
 
 
 def check_C02(ctx):
@@ -258,6 +284,7 @@ def check_C02(ctx):
             cases.append(["parse " + hx(b"enr:" + gens.b64(inputs[i]))]); labels.append(labels[i] + "/text")
         # verdict only; a verdict that differs from the model's is a failing input (the model's verdict is WellFormed's)
         compare_cases(ctx, kt, cases, labels, lambda c, h: [], "c02", None, nontrivial=lambda case, il: True)
+        cross_decode(ctx, kt, inputs)
 
 
 def check_C13(ctx):
@@ -309,6 +336,7 @@ def check_C13(ctx):
             cases.append(case); labs.append("stream_of_%d" % k)
         compare_cases(ctx, kt, cases, labs, lambda c, h: ["rest", "n", "recs", "seq", "pairs", "sig", "nid", "enc"], "c13", mon,
                       nontrivial=lambda case, il: True)
+        cross_decode(ctx, kt, [unhx(c[1].split()[1]) for c in cases if len(c) > 1 and c[1].startswith("decode ")])
 
 
 def check_C11(ctx):
@@ -808,7 +836,8 @@ def check_history_property(ctx):
                         t[3] = "2"
                         extra.append(case[:i] + [" ".join(t)] + case[i + 1:])
             cases += extra
-        compare_cases(ctx, kt, cases, None, fields_for, pid.lower(), mon)
+        hres = compare_cases(ctx, kt, cases, None, fields_for, pid.lower(), mon)
+        cross_hist(ctx, kt, cases, hres)
         for c in cases:
             for l in c:
                 if l.startswith("op "):
@@ -841,6 +870,7 @@ def check_C04(ctx):
         recs, inputs, labels = decode_inputs(ctx, kt, ctx.scale(10, 100), 0, ctx.scale(4, 40), ctx.scale(10, 200), 0)
         cases = [["decode " + hx(b)] for b in inputs]
         compare_cases(ctx, kt, cases, labels, lambda c, h: fields, "c04a", mon_a)
+        cross_decode(ctx, kt, inputs, [b"enr:" + gens.b64(b) for b in inputs[:12]] + [gens.b64(b) for b in inputs[:6]])
         # (b) histories, then round trips of every distinct record observed
         hcases = hist_cases(ctx, kt, ctx.scale(16, 300), (3, 15))
         hcases += [c for c in size_sweep_cases(ctx, kt) if any(l.startswith("build") for l in c)]
@@ -925,6 +955,7 @@ def check_C12(ctx):
                 ctx.dist[lab] += 1
             cases.append(case); labs.append("text_edits")
         compare_cases(ctx, kt, cases, labs, lambda c, h: ["enc", "text", "json", "disp", "seq", "pairs", "sig"], "c12", mon)
+        cross_decode(ctx, kt, [], [unhx(l.split()[1]) for c in cases for l in c if l.startswith("parse ")])
 
 
 def check_C15(ctx):
@@ -1356,6 +1387,7 @@ def report(ctx, audit, t0):
         "disagreements": len(dis),
         "monitor_failures": len(mons),
         "hypotheses_checked_at_run_time": dict(ctx.hyp_checked),
+        "extraction_cross_check": dict(ctx.cross, what="the same toy-key cases evaluated by vm_compute inside Coq (kernel-checked equality) and by the extracted OCaml driver"),
     }
     assumptions = ["the correspondence check is differential testing: agreement is established on the inputs run",
                    "crypto cores (ECDSA equation, ed25519, SEC1 decoding) are oracles at run time and universally quantified in the theorems",
@@ -1398,7 +1430,7 @@ def main():
     t0 = time.time()
     try:
         coq_ok, bt = build_all()
-        audit = coq_audit(a.pid) if not a.noaudit else {"file": "", "theorems": ["dev"], "obligations": 1, "discharged": 1, "problems": [], "axioms": []}
+        audit = coq_audit(a.pid, thorough=(a.tier == "thorough")) if not a.noaudit else {"file": "", "theorems": ["dev"], "obligations": 1, "discharged": 1, "problems": [], "axioms": []}
         if not coq_ok:
             audit["problems"].append("the Coq development does not build (see build/coq_build.log)")
         ctx = Ctx(a.pid, a.tier, seed)
